@@ -34,7 +34,7 @@ func genC35(r *sim.Rand, tier string) *sim.Case {
 	c := &sim.Case{Cfg: map[string]int64{
 		"block_size":  r.Pick64(64, 128, 256, 512, 1024, 4096),
 		"bloom_milli": r.Pick64(0, 10, 10, 100, 500),
-		"block_cache": r.Pick64(0, 0, 1, 4, 256),
+		"block_cache": r.Pick64(0, 0, 1, 256, 4096),
 		"bloom_cache": r.Pick64(0, 1, 16),
 	}}
 	bs := int(c.Cfg["block_size"])
